@@ -120,15 +120,25 @@ class NoThreads:
 
 class Pattern(i_lib.TimePattern):
     """A time-of-day pattern whose matching minute arrives after an arbitrary number of polls."""
-    def __init__(self, ctx):
+    def __init__(self, ctx, log=None):
         self.ctx = ctx
         self.polls = 0
+        self.log = [] if log is None else log
 
     def match(self, h, m):
         self.polls += 1
-        if self.polls > 3:
-            return True
-        return self.ctx.choose(2, 'minute-arrived') == 1
+        r = True if self.polls > 3 else self.ctx.choose(2, 'minute-arrived') == 1
+        self.log.append(r)
+        return r
+
+
+class ReplayPattern(i_lib.TimePattern):
+    """The answers a Pattern gave on the path being replayed."""
+    def __init__(self, answers):
+        self.answers = list(answers)
+
+    def match(self, h, m):
+        return self.answers.pop(0) if self.answers else True
 
 
 class Now:
@@ -174,12 +184,14 @@ def clock_worker(args):
             origin = vt.now
             due = 0                       # sum of delays since the origin
             obs = []
+            plog = []
             for i, op in enumerate(plan):
                 w = vt.advance('work', 0, 1000)          # work done before the statement
                 c._event.waits = 0
                 t_call = vt.now
                 if op == 'p':
-                    c.wait_until(Pattern(ctx))
+                    plog.append([])
+                    c.wait_until(Pattern(ctx, plog[-1]))
                     origin = vt.now
                     due = 0
                     obs.append(('p', t_call, vt.now, c._event.waits, origin, due, None))
@@ -188,7 +200,7 @@ def clock_worker(args):
                     due = due + d
                     c.pause_for(d)
                     obs.append((op, t_call, vt.now, c._event.waits, origin, due, d))
-            return obs, tick
+            return obs, tick, plog
         finally:
             restore(saved)
     for ctx, out in symx.explore(harness, max_paths=args['max_paths'], timeout_ms=5000, stats=res.stats,
@@ -196,7 +208,7 @@ def clock_worker(args):
         if isinstance(out, symx.Abort):
             res.out_of_bound += 1
             continue
-        obs, tick = out
+        obs, tick, plog = out
         res.nontrivial += 1
         T = symx.term
         cons = []
@@ -225,7 +237,7 @@ def clock_worker(args):
             continue
         what = next(desc for _, desc, f in cons if not z3.is_true(model.eval(f, model_completion=True)))
         mv = {k: float(v) if not isinstance(v, bool) else v for k, v in ctx.model_values(model).items()}
-        msg = replay_clock(plan, mv)
+        msg = replay_clock(plan, mv, plog)
         res.violation('clock|%s' % scripth._sig_of(what), '%s\n  plan %s, times %s\n  replay: %s' % (what, plan, mv, msg),
                       inputs={'plan': plan, 'values': mv}, replayed=msg is not None)
     if not symx.explore.last_exhaustive:
@@ -235,11 +247,12 @@ def clock_worker(args):
     return res
 
 
-def replay_clock(plan, mv):
+def replay_clock(plan, mv, plog=()):
     """Concrete replay with the model's instants (floats) on the same event model."""
     saved_ctx = symx.Ctx.cur
     symx.Ctx.cur = None
     ct = CTime(mv)
+    plog = [list(x) for x in plog]
     tick = mv.get('tick_len', 1.0)
     saved = (clock_mod.time, clock_mod.threading, clock_mod.datetime)
     clock_mod.time, clock_mod.threading, clock_mod.datetime = ct, NoThreads, DT
@@ -255,12 +268,7 @@ def replay_clock(plan, mv):
             ev.waits = 0
             t_call = ct.now
             if op == 'p':
-                class P:
-                    n = 0
-                    def match(self, h, m):
-                        P.n += 1
-                        return P.n > 1
-                c.wait_until(P())
+                c.wait_until(ReplayPattern(plog.pop(0) if plog else ()))
                 origin, due = ct.now, 0.0
                 continue
             d = mv.get('delay_%d' % i, 0.0) if op == 'd' else 0.0
